@@ -399,6 +399,17 @@ Example C18_nonvacuous_close :
   h_early s = false /\ stable (cfg_new KOnce) s = true /\ quiescent s = true /\ n_starts s = 1.
 Proof. vm_compute. repeat split. Qed.
 
+(* the result store's case (KSticky): Close reaches the service while its launch is still pending (h_early); the
+   request is kept, the Start that is entered afterwards consumes it and returns at once - the state meets the
+   hypotheses of C18_close_stops through the KSticky disjunct and is at rest with nothing left *)
+Definition C18_ex_sticky_early : list label :=
+  [EStart; TBegin; TCheck; TLaunch; ECall; CMarkL; CReadL; CSvcL; CSigL; GEnter; GPut; TExit].
+Example C18_nonvacuous_sticky_close_before_loop :
+  let s := final (cfg_new KSticky) C18_ex_sticky_early in
+  run (cfg_new KSticky) init C18_ex_sticky_early = Some s /\ repaired (cfg_new KSticky) /\ is_cret (s_c s) = true /\
+  h_early s = true /\ stable (cfg_new KSticky) s = true /\ quiescent s = true /\ n_starts s = 1 /\ v_stopreq s = false.
+Proof. vm_compute. repeat split. Qed.
+
 (* a fresh service panics while the plug-in is open: recovery, cool-down, restart, running again *)
 Definition C18_ex_panic : list label :=
   [EStart; TBegin; TCheck; TLaunch; GEnter; EPanic; GPanic].
